@@ -1,26 +1,23 @@
 TUS = ['src/base/QXmppDataForm.cpp']
 MODELS = ['c20_qt_core.c', 'c20_qt_list.c', 'c20_models.c']
-# std::sort on n <= 3 elements stays in insertion sort; __unguarded_linear_insert has no range guard (it relies on the sentinel
-# established by the caller), so it gets the bound n (n - 1 real iterations; the spare slots of c20_qt_list.c absorb the reads of the surplus iteration)
-LB = {'check_against_oracle': 42, 'verificationStringEv': 4,
-      r'^_ZSt25__unguarded_linear_insertIN5QListIN16QXmppDiscoveryIq8Identity': 2,
-      r'^_ZSt25__unguarded_linear_insertIN5QListI7QString': 3}
-def I(name, entry, **kw):
-    d = dict(name=name, entry=entry, cdefs={'C20_HAVE_IDLESS': 1}, unwind=9, timeout_s=300, mem_gb=6, tiers=('quick', 'thorough'), bound=''); d.update(kw); return d
+LB = {'check_against_oracle': 42, 'verificationStringEv': 4}
+def I(name, entry, n=(), **kw):
+    cd = {'C20_HAVE_IDLESS': 1}
+    for k, v in enumerate(n):
+        if v is not None: cd['C_N%d' % k] = v
+    d = dict(name=name, entry=entry, cdefs=cd, unwind=9, timeout_s=300, mem_gb=6, solver='cadical', tiers=('quick', 'thorough'), bound=''); d.update(kw); return d
 def G(name, insts, **defs):
     return dict(name=name, harness='h_vs.cpp', tus=TUS, models=MODELS, cxxdefs=defs, loop_bounds=LB, instances=insts)
 SPEC = dict(
     property='C20',
     groups=[
-        G('probe', [I('probe', 'h_probe')], C20_PROBE=1),
-        G('probe3', [I('probe3', 'h_probe')], C20_PROBE=3),
-        G('probeX', [I('pA', 'h_pA'), I('pB', 'h_pB'), I('pC', 'h_pC')], C20_PROBE=4),
-        G('probe2', [I('probe2', 'h_probe', cdefs={})], C20_PROBE=2),
-        G('vs_2_3', [I('idfeat_ref_2_3', 'h_idfeat_ref')], C_NID=2, C_NF=3),
-        G('vs_2_0', [I('idfeat_ref_2_0', 'h_idfeat_ref', solver='cadical')], C_NID=2, C_NF=0),
-        G('vs_0_3', [I('idfeat_ref_0_3', 'h_idfeat_ref', solver='cadical')], C_NID=0, C_NF=3),
-        G('vs_1_1', [I('idfeat_ref_1_1', 'h_idfeat_ref', solver='cadical')], C_NID=1, C_NF=1),
-        G('vs_s_s', [I('idfeat_ref_s_s', 'h_idfeat_ref', solver='cadical')]),
+        G('vs', [
+            I('idfeat_ref_2_0', 'h_idfeat_ref', (2, 0)), I('idfeat_ref_1_1', 'h_idfeat_ref', (1, 1)), I('idfeat_ref_0_3', 'h_idfeat_ref', (0, 3)),
+            I('idfeat_ref_2_3', 'h_idfeat_ref', (2, 3)),
+            I('feat_iff_3_3', 'h_feat_iff', (3, 3)), I('feat_iff_3_2', 'h_feat_iff', (3, 2)), I('feat_iff_3_1', 'h_feat_iff', (3, 1)),
+            I('id_iff_2_2', 'h_id_iff', (2, 2)), I('id_iff_2_1', 'h_id_iff', (2, 1)),
+            I('form_ref_2f', 'h_form_ref', (0, 0, 2, 1, 2)),
+        ]),
     ],
     bounds=[], assumptions=[], outside=[],
 )
